@@ -22,7 +22,22 @@ def defects():
     return "\n".join(out)
 
 def seeded():
-    out = ["| seeded change | property | what it breaks / what it needs | checks run → result | note |", "|---|---|---|---|---|"]
+    metas = {os.path.basename(os.path.dirname(m)): json.load(open(m)) for m in sorted(glob.glob(f"{ROOT}/seeded/*/meta.json"))}
+    notes0 = json.load(open(f"{ROOT}/seeded/NOTES.json")) if os.path.exists(f"{ROOT}/seeded/NOTES.json") else {}
+    agent = [k for k in metas if re.match(r"C\d+-[A-Z]$", k)]
+    rev = [k for k in metas if k.startswith("revert-")]
+    harm = [k for k in metas if k.startswith("harmless-")]
+    def caught(k):
+        d = metas[k]
+        own = d.get("property")
+        return any(v.startswith("VIOLATION") for v in d.get("checks", {}).values()), str(d.get("checks", {}).get(own, "")).startswith("VIOLATION")
+    n_any = sum(1 for k in agent if caught(k)[0]); n_own = sum(1 for k in agent if caught(k)[1])
+    n_str = sum(1 for k in agent if "strengthened" in notes0.get(k, ""))
+    summary = (f"Summary (generated): {len(agent)} property-breaking changes by sub-agents — {n_own} caught by the check of the property they target, "
+               f"{n_any} caught by at least one check, {n_str} of them only after the check was strengthened (what was added is in the note column); "
+               f"{len(rev)} reverse patches of fix: commits, {sum(1 for k in rev if caught(k)[0])} caught; "
+               f"{len(harm)} behaviour-preserving rewrites, {sum(1 for k in harm if all(v == 'silent' for v in metas[k].get('checks', {}).values()))} with every check silent.\n")
+    out = [summary, "| seeded change | property | what it breaks / what it needs | checks run → result | note |", "|---|---|---|---|---|"]
     notes = json.load(open(f"{ROOT}/seeded/NOTES.json")) if os.path.exists(f"{ROOT}/seeded/NOTES.json") else {}
     for m in sorted(glob.glob(f"{ROOT}/seeded/*/meta.json")):
         d = json.load(open(m))
